@@ -137,6 +137,10 @@ class TerminalModel:
                 self.al_code = code
                 return
         delay = self.al_delay(self.al_state, req)
+        if ack and getattr(self, "al_ack_clears_first", False):
+            # the flag goes at once, the state follows after the delay
+            self.al_error = False
+            self.al_code = 0
         self.al_pending = [req, delay, ack]
         if delay == 0:
             self._al_complete()
